@@ -422,6 +422,10 @@ func c15Check(c c15Case, st *stats.Run) error {
 	}
 	if c.Flags == "two-inputs" {
 		args = append(args, "in.dat")
+		if c.Stdin {
+			args = append(args, "in.dat") // two INPUT arguments in every case
+			stdin, c.Stdin = nil, false
+		}
 		valid = false
 		headerLevel = true
 	}
